@@ -558,16 +558,22 @@ prop('C19', 'other',
      'entries against its definition (exhaustive in every tier) and sortedness of both tangent halves; '
      'sin/cos_angle_aprox within 2 ulp (all 2^32 angles in the thorough tier); sqrt_aprox 2% (all raw x in [1,2^37) in '
      'the thorough tier); atan_index_aprox within 1.25 (bounded: exhaustive for |raw| <= 2^21, thresholds, windows, '
-     'random). atan_index_aprox itself is not under contract: its std::lower_bound over iterators is outside the '
-     'extraction subset (said so; no hand-written look-alike is verified instead).',
+     'random). atan_index_aprox is under contract for UB-freedom, bounds and result range only (std::lower_bound enters '
+     'by an assumed contract); its accuracy is stand-in only.',
      technique='CBMC contracts (index/bounds/NaN clauses); exhaustive native enumeration of table entries; native stand-ins for accuracy',
-     not_decided=['atan_index_aprox is outside the extraction subset (std::lower_bound/std::next/std::distance over std::array iterators): native stand-in only'],
      assumptions=['glibc long double libm as the oracle for table entries and accuracy stand-ins'])
+LOWER_BOUND_PRELUDE_C19 = """
+long *vf_lower_bound_long(long *first, long *last, long val)
+__CPROVER_requires(__CPROVER_same_object(first, last) && first <= last)
+__CPROVER_ensures(__CPROVER_same_object(__CPROVER_return_value, first) && __CPROVER_POINTER_OFFSET(__CPROVER_return_value) >= __CPROVER_POINTER_OFFSET(first) && __CPROVER_POINTER_OFFSET(__CPROVER_return_value) <= __CPROVER_POINTER_OFFSET(last) && __CPROVER_POINTER_OFFSET(__CPROVER_return_value) % sizeof(long) == 0)
+__CPROVER_assigns();
+"""
 SIN_APROX = '_ZN9fixedmath15sin_angle_aproxEi'
 COS_APROX = '_ZN9fixedmath15cos_angle_aproxEi'
 SQRT_APROX = '_ZN9fixedmath10sqrt_aproxENS_7fixed_tE'
 U('C19', 'c19.sin_aprox', SIN_APROX, 'pre_anyi', 'post_sin_aprox', cxx='fixedmath::sin_angle_aprox($1)', backends=('sat', 'kissat'), timeout=600)
 U('C19', 'c19.cos_aprox', COS_APROX, 'pre_anyi', 'post_cos_aprox', cxx='fixedmath::cos_angle_aprox($1)', backends=('sat', 'kissat'), timeout=600)
+U('C19', 'c19.atan_index_aprox', '_ZN9fixedmath16atan_index_aproxENS_7fixed_tE', 'pre_valid1', 'post_atan_index', cxx='fixedmath::atan_index_aprox($1)', prelude=LOWER_BOUND_PRELUDE_C19, replace_raw=['vf_lower_bound_long'], backends=MULBE, timeout=600)
 U('C19', 'c19.sqrt_aprox', SQRT_APROX, 'pre_valid1', 'post_sqrt_aprox', cxx='fixedmath::sqrt_aprox($1)', backends=('sat', 'kissat'), timeout=600)
 
 
@@ -589,10 +595,9 @@ prop('C07', 'proof',
      'domains (their preconditions are obligations here). Mixed-type operator instantiations are compositions of a '
      'conversion (verified on every value) and a kernel (verified on every valid fixed_t); their forwarding layers '
      'contain no arithmetic and are verified under C16.',
-     not_decided=['atan_index_aprox and atan_aprox are outside the extraction subset (std::lower_bound over std::array iterators): not under contract, native stand-in of C19 only',
-                  'operator""_fix(long double): CBMC has no sound 80-bit long double model for the narrowing cast; the double conversion it forwards to is verified on every double',
+     not_decided=['operator""_fix(long double): CBMC has no sound 80-bit long double model for the narrowing cast; the double conversion it forwards to is verified on every double',
                   'iostream operator<< is I/O, not arithmetic: excluded'],
-     assumptions=['std::sqrt: assumed contract (C13)'])
+     assumptions=['std::sqrt: assumed contract (C13)', 'std::lower_bound (in atan_index_aprox): external, assumed to return an iterator inside [first, last] (weaker than the standard\'s contract); std::begin/next/distance over std::array are translated as the pointer operations they are'])
 UB = dict(ub_only=True)
 HEAVY = dict(ub_only=True, backends=MULBE, timeout=600)
 # comparison, bit and unary operators, floor/ceil, shifts
@@ -654,6 +659,16 @@ for t, ct in ITYPES + [('f', 'float'), ('NS_7fixed_tE', 'fixed_t')]:
     for fnm, k in (('sin', K_SIN_ANY), ('cos', K_COS_ANY), ('tan', K_TAN_ANY)):
         U('C07', 'c07.%s_angle.%s' % (fnm, ct), '_ZN9fixedmath9%s_angleI%s%s' % (fnm, t, sfx), None, None, cxx='fixedmath::%s_angle($1)' % fnm, replace=[k], **HEAVY)
 # compiled table functions
+LOWER_BOUND_PRELUDE = """
+/* std::lower_bound over a table: external, ASSUMED contract (weaker than the standard's): the result lies in [first, last] */
+long *vf_lower_bound_long(long *first, long *last, long val)
+__CPROVER_requires(__CPROVER_same_object(first, last) && first <= last)
+__CPROVER_ensures(__CPROVER_same_object(__CPROVER_return_value, first) && __CPROVER_POINTER_OFFSET(__CPROVER_return_value) >= __CPROVER_POINTER_OFFSET(first) && __CPROVER_POINTER_OFFSET(__CPROVER_return_value) <= __CPROVER_POINTER_OFFSET(last) && __CPROVER_POINTER_OFFSET(__CPROVER_return_value) % sizeof(long) == 0)
+__CPROVER_assigns();
+"""
+ATAN_INDEX = '_ZN9fixedmath16atan_index_aproxENS_7fixed_tE'
+U('C07', 'c07.atan_index_aprox', ATAN_INDEX, None, None, cxx='fixedmath::atan_index_aprox($1)', prelude=LOWER_BOUND_PRELUDE, replace_raw=['vf_lower_bound_long'], **HEAVY)
+U('C07', 'c07.atan_aprox', '_ZN9fixedmath10atan_aproxENS_7fixed_tE', None, None, cxx='fixedmath::atan_aprox($1)', prelude=LOWER_BOUND_PRELUDE, replace_raw=['vf_lower_bound_long'], **HEAVY)
 U('C07', 'c07.sin_angle_aprox', SIN_APROX, None, None, cxx='fixedmath::sin_angle_aprox($1)', ub_only=True, backends=('sat', 'kissat'), timeout=600)
 U('C07', 'c07.cos_angle_aprox', COS_APROX, None, None, cxx='fixedmath::cos_angle_aprox($1)', ub_only=True, backends=('sat', 'kissat'), timeout=600)
 U('C07', 'c07.sqrt_aprox', SQRT_APROX, None, None, cxx='fixedmath::sqrt_aprox($1)', **UB)
